@@ -11,8 +11,8 @@ Open Scope Z_scope.
 Theorem C04_compute_unfold :
   forall shape a vals minv cs,
     compute shape a vals minv cs =
-    relabel_forest (make_trunk (indep_of cs)
-      (run (adj_of shape a) (indep_of cs) (order_of (kept vals minv)))).
+    sort_by tid (relabel_forest (make_trunk (indep_of cs)
+      (run (adj_of shape a) (indep_of cs) (order_of (kept vals minv))))).
 Proof. reflexivity. Qed.
 
 (* one iteration: the roots with a neighbour of the pixel in their region are replaced
